@@ -46,12 +46,25 @@ func (s *Session) ExecQuery(q string) error {
 		fmt.Printf("created database %s\n\r", stmt.Name)
 		return nil
 	case sql.UseStatement:
-		var err error
-		s.CurDB = stmt.DBName
-		s.RelationService, err = storage.OpenRelation(stmt.DBName, true)
+		if s.RelationService != nil && strings.EqualFold(s.CurDB, stmt.DBName) {
+			// already selected; a second service on the same files would
+			// work from a stale copy of the file header
+			fmt.Printf("selected database %s\n\r", stmt.DBName)
+			return nil
+		}
+		rs, err := storage.OpenRelation(stmt.DBName, true)
 		if err != nil {
 			return err
 		}
+		if s.RelationService != nil {
+			// flush the previous database and stop its flush timer
+			if err := s.RelationService.Close(); err != nil {
+				rs.Close()
+				return err
+			}
+		}
+		s.CurDB = stmt.DBName
+		s.RelationService = rs
 		fmt.Printf("selected database %s\n\r", stmt.DBName)
 		return nil
 	case sql.ShowDatabase:
